@@ -34,6 +34,19 @@ func (c06) Gen(rt *rapid.T, thorough bool) any {
 	s.LLayout = ""
 	if rapid.Bool().Draw(rt, "sequential") {
 		s.Gate = 1
+		scaleOdds := 80
+		if thorough {
+			scaleOdds = 15
+		}
+		if rapid.IntRange(0, scaleOdds).Draw(rt, "default_scale6") == 0 {
+			// the declared default capacity: bufferSize omitted, overflow only after 10000 + 1 items
+			s.BufferSize, s.DefaultSize = 10000, true
+			s.Prefill = 10001
+			for i, n := 0, rapid.IntRange(1, 6).Draw(rt, "nseq_scale"); i < n; i++ {
+				s.Seq = append(s.Seq, rapid.SampledFrom([]int{0, 0, 1, 2}).Draw(rt, "seqop_scale"))
+			}
+			return s
+		}
 		s.Prefill = rapid.SampledFrom([]int{0, 5, s.BufferSize - 1, s.BufferSize, s.BufferSize + 1, s.BufferSize + 1}).Draw(rt, "prefill")
 		n := rapid.IntRange(1, 30).Draw(rt, "nseq")
 		if thorough {
